@@ -19,7 +19,7 @@ From SC Require Import Base.Prelude Gen.Units Traits.Str Traits.StrProofs
   Traits.ModeTrait Traits.ModeTraitProofs Traits.EnterLeave Traits.EnterLeaveProofs Traits.Meter Traits.MeterProofs
   Traits.Publication Traits.PublicationProofs Traits.Options Traits.OptionsProofs Traits.Store Traits.StoreProofs
   Traits.VendingStore Traits.VendingStoreProofs Traits.FanMask Traits.FanMaskProofs.
-From SC Require Import Msg.Msg Msg.Schema Msg.Path Masks.Get Traits.MeterMask Traits.MeterMaskProofs.
+From SC Require Import Msg.Msg Msg.Schema Msg.Path Masks.Get Traits.MeterMask Traits.MeterMaskProofs Traits.StockMask Traits.StockMaskProofs.
 From Coq Require Import QArith.
 Local Open Scope string_scope.
 Local Open Scope Z_scope.
@@ -510,3 +510,54 @@ Example C20_nonvacuous_meter_masked :
   mm_run (mkMM 0 (Some (100, 0)) (Some (100, 0))) ops = mkMM 3 (Some (110, 0)) (Some (110, 0)) /\
   mm_run (mkMM 0 (Some (100, 0)) (Some (100, 0))) (firstn 3 ops) = mkMM 9 (Some (100, 0)) (Some (105, 0)).
 Proof. vm_compute. repeat split. Qed.
+
+(* ================= vending: UpdateStock with arbitrary update masks (field-mask paths, nested quantity paths) ================= *)
+(* for every amount type A with a "not populated" test (float32 in the code, Q in Traits/Vending.v, Z in the judge) *)
+
+Theorem C20_stock_path_update_frame : forall (A : Type) (azero : A) (aisz : A -> bool) ups old req,
+  (touches ups "used" = false -> ps_used (stock_update azero aisz (Some ups) old req) = ps_used old) /\
+  (touches ups "remaining" = false -> ps_rem (stock_update azero aisz (Some ups) old req) = ps_rem old) /\
+  (touches ups "last_dispensed" = false -> ps_last (stock_update azero aisz (Some ups) old req) = ps_last old) /\
+  (touches ups "dispensing" = false -> ps_disp (stock_update azero aisz (Some ups) old req) = ps_disp old).
+Proof. exact stock_update_frame. Qed.
+Print Assumptions C20_stock_path_update_frame.
+
+(* nested paths: f.amount alone leaves f.unit as stored and writes the request's amount, and vice versa *)
+Theorem C20_stock_path_update_nested : forall (A : Type) (azero : A) (aisz : A -> bool) ups f old req u a,
+  covers ups [f] = false -> old = Some (u, a) ->
+  (covers ups [f; "unit"] = false -> option_map fst (upd_pq azero aisz ups f old req) = Some u) /\
+  (covers ups [f; "amount"] = false -> option_map snd (upd_pq azero aisz ups f old req) = Some a) /\
+  (covers ups [f; "amount"] = true -> forall u' a', req = Some (u', a') -> option_map snd (upd_pq azero aisz ups f old req) = Some a') /\
+  (covers ups [f; "unit"] = true -> forall u' a', req = Some (u', a') -> option_map fst (upd_pq azero aisz ups f old req) = Some u').
+Proof. exact stock_update_nested. Qed.
+Print Assumptions C20_stock_path_update_nested.
+
+Theorem C20_stock_path_update_inside : forall (A : Type) (azero : A) (aisz : A -> bool) ups f old req, covers ups [f] = true ->
+  upd_pq azero aisz ups f old req = match req with Some r => Some (merge_pq azero aisz old r) | None => None end.
+Proof. exact stock_update_inside. Qed.
+Print Assumptions C20_stock_path_update_inside.
+
+(* the generic store theorem instantiated with the path merge: all Create / Update(arbitrary path mask) / Delete sequences *)
+Theorem C20_stock_path_store_sequences : forall (A : Type) (azero : A) (aisz : A -> bool) ops (s : store (pstock A)),
+  store_wf s = true ->
+  store_wf (srun (stock_update azero aisz) (@stock_mask_bad) s ops) = true /\
+  forall k, sfind k (srun (stock_update azero aisz) (@stock_mask_bad) s ops)
+            = frun (stock_update azero aisz) (@stock_mask_bad) (fun k => sfind k s) ops k.
+Proof. exact stock_path_store_sequences. Qed.
+Print Assumptions C20_stock_path_store_sequences.
+
+Theorem C20_stock_path_store_update_frame : forall (A : Type) (azero : A) (aisz : A -> bool) (s : store (pstock A)) name req um,
+  store_wf s = true ->
+  let s' := snd (sstep (stock_update azero aisz) (@stock_mask_bad) s (SUpdate name req um)) in
+  (forall k, k <> name -> sfind k s' = sfind k s) /\ (forall k, sfind k s' = None <-> sfind k s = None).
+Proof. exact stock_path_update_frame. Qed.
+Print Assumptions C20_stock_path_store_update_frame.
+
+Example C20_nonvacuous_stock_path :
+  zupdate (Some [["used"; "amount"]; ["remaining"; "unit"]]) (mkPS (Some (3, 20)) (Some (3, 100)) None false)
+          (mkPS (Some (9, 25)) (Some (4, 1)) (Some (1, 1)) true)
+  = mkPS (Some (3, 25)) (Some (4, 100)) None false
+  /\ zupdate_tree "water" (Some [["used"; "amount"]; ["remaining"; "unit"]]) (mkPS (Some (3, 20)) (Some (3, 100)) None false)
+          (mkPS (Some (9, 25)) (Some (4, 1)) (Some (1, 1)) true)
+  = Some (0, mkPS (Some (3, 25)) (Some (4, 100)) None false).
+Proof. exact stock_nested_sample. Qed.
